@@ -15,6 +15,7 @@ pub fn val_to_prim(v: &Val) -> Primitive {
         Val::Arr(a) => Primitive::Array(a.iter().map(val_to_prim).collect()),
         Val::Dict(d) => Primitive::Dictionary(dict_to_prim(d)),
         Val::Ref(n, g) => Primitive::Reference(PlainRef { id: *n as u64, gen: *g as u64 }),
+        Val::Raw(t) => Primitive::name(t.as_str()),
     }
 }
 
